@@ -14,6 +14,8 @@ pub struct Block {
     pub target: Option<(usize, Option<(usize, usize)>)>,
     pub start: u64,
     pub dom: Arc<Vec<Val>>,
+    /// Some((fi, fj, values of fi, values of fj)) = cross product of two fields' boundary values
+    pub pair: Option<(usize, usize, Arc<Vec<Val>>, Arc<Vec<Val>>)>,
 }
 
 pub struct Gen {
@@ -57,6 +59,7 @@ impl Gen {
                     target: None,
                     start: total,
                     dom: Arc::new(vec![Val::Z]),
+                    pair: None,
                 });
                 total += 1;
                 for (fi, f) in k.fields.iter().enumerate() {
@@ -69,6 +72,7 @@ impl Gen {
                             target: Some((fi, None)),
                             start: total,
                             dom: d.clone(),
+                            pair: None,
                         });
                         total += d.len() as u64;
                     }
@@ -86,6 +90,7 @@ impl Gen {
                                     target: Some((fi, Some((0, ei)))),
                                     start: total,
                                     dom: d.clone(),
+                                    pair: None,
                                 });
                                 total += d.len() as u64;
                             }
@@ -104,12 +109,42 @@ impl Gen {
                                         target: Some((fi, Some((pos, ei)))),
                                         start: total,
                                         dom: d.clone(),
+                                        pair: None,
                                     });
                                     total += d.len() as u64;
                                 }
                             }
                         },
                         _ => {},
+                    }
+                }
+                // pairs of fields: cross product of their boundary values (adjacent pairs in the
+                // light depth, all pairs in the full depth) - value-dependent interactions between
+                // neighbours (overlapping bits, swapped order) show up here
+                let pv: Vec<Arc<Vec<Val>>> = k.fields.iter().map(|f| Arc::new(spec::pair_values(f))).collect();
+                for i in 0..k.fields.len() {
+                    if pv[i].is_empty() {
+                        continue;
+                    }
+                    let mut seen_next = false;
+                    for j in (i + 1)..k.fields.len() {
+                        if pv[j].is_empty() {
+                            continue;
+                        }
+                        if depth == Depth::Light && seen_next {
+                            break;
+                        }
+                        seen_next = true;
+                        let n = (pv[i].len() * pv[j].len()) as u64;
+                        blocks.push(Block {
+                            kind: ki,
+                            baseline: b,
+                            target: None,
+                            start: total,
+                            dom: Arc::new(vec![]),
+                            pair: Some((i, j, pv[i].clone(), pv[j].clone())),
+                        });
+                        total += n;
                     }
                 }
             }
@@ -136,6 +171,13 @@ impl Gen {
         let mut vals = baseline(k, b.baseline);
         let off = (i - b.start) as usize;
         let what = match b.target {
+            None if b.pair.is_some() => {
+                let (fi, fj, di, dj) = b.pair.as_ref().unwrap();
+                let (a, c) = (off / dj.len(), off % dj.len());
+                vals[*fi] = di[a].clone();
+                vals[*fj] = dj[c].clone();
+                format!("{} B{} {}#{}x{}#{}", k.name, b.baseline, k.fields[*fi].name, a, k.fields[*fj].name, c)
+            },
             None => format!("{} B{}", k.name, b.baseline),
             Some((fi, None)) => {
                 vals[fi] = b.dom[off].clone();
